@@ -101,6 +101,34 @@ private theorem bps_flatten_ne (N : Nat) (L : Doc) (P : Name) (h : P ≠ 0) :
 
 private theorem empty_stage (s : Nat) : Layer.empty.stage s = [] := rfl
 
+/-! ### the stage blueprint base (fix 1b655bb) -/
+
+private theorem bpsBase_flatten (N : Nat) (L : Doc) (P : Name) (s : Nat) :
+    bpsBase (flatten N L P) P s = (layerOf (flatten N L P).bps 0).stage s := by
+  unfold bpsBase
+  by_cases hP : P = 0
+  · subst hP; simp
+  · rw [bps_flatten_ne N L P hP]; simp [Layer.empty]
+
+private theorem bpsBase_zero (M : Doc) (s : Nat) : bpsBase M 0 s = (layerOf M.bps 0).stage s := by
+  simp [bpsBase]
+
+private theorem keysSub_bpsBase (L : Doc) (P : Name) (c : Comp) :
+    keysSub (bpsBase L P c.stage) (update (update (update (update (layerOf L.bps 0).glob
+      ((layerOf L.bps 0).stage c.stage)) (layerOf L.bps P).glob) ((layerOf L.bps P).stage c.stage)) c.opts) := by
+  have hS : keysSub ((layerOf L.bps 0).stage c.stage) (update (update (update (update (layerOf L.bps 0).glob
+      ((layerOf L.bps 0).stage c.stage)) (layerOf L.bps P).glob) ((layerOf L.bps P).stage c.stage)) c.opts) :=
+    keysSub_trans (keysSub_update_right _ _) (keysSub_trans (keysSub_update_left _ _)
+        (keysSub_trans (keysSub_update_left _ _) (keysSub_update_left _ _)))
+  have hG : keysSub (layerOf L.bps P).glob (update (update (update (update (layerOf L.bps 0).glob
+      ((layerOf L.bps 0).stage c.stage)) (layerOf L.bps P).glob) ((layerOf L.bps P).stage c.stage)) c.opts) :=
+    keysSub_trans (keysSub_update_right _ _) (keysSub_trans (keysSub_update_left _ _) (keysSub_update_left _ _))
+  unfold bpsBase
+  simp only
+  split
+  · exact hS
+  · exact keysSub_update hS hG
+
 /-! ### what `resolves` gives -/
 
 private theorem resolves_parts {N : Nat} {L : Doc} {P : Name} (h : resolves N L P = true) :
@@ -169,7 +197,7 @@ private theorem bpsv_second (h : resolves N L P = true) (c : Comp) (hc : c ∈ L
     bpsv N (flatten N L P) P c.stage = bpsv N L P c.stage := by
   have hs : c.stage ∈ L.comps.map (·.stage) := List.mem_map.mpr ⟨c, hc, rfl⟩
   unfold bpsv bpsCtx bps0
-  rw [gvars_second h, svars_second h c hc]
+  rw [gvars_second h, svars_second h c hc, bpsBase_flatten]
   have : update ((layerOf (flatten N L P).bps 0).stage c.stage) ((layerOf (flatten N L P).bps P).stage c.stage)
       = bpsv N L P c.stage := by
     by_cases hP : P = 0
@@ -206,8 +234,7 @@ private theorem layeredOpts_second (c : Comp) (hc : c ∈ L.comps) (hd : c.isDoc
     apply kO
     apply keysSub_mapVals_left
     apply keysSub_update
-    · exact keysSub_trans (keysSub_update_right _ _) (keysSub_trans (keysSub_update_left _ _)
-        (keysSub_trans (keysSub_update_left _ _) (keysSub_update_left _ _)))
+    · exact keysSub_bpsBase L P c
     · exact keysSub_trans (keysSub_update_right _ _) (keysSub_update_left _ _)
   have habs : ∀ a b : Dict, keysSub a (layeredOpts L P c) → keysSub b (layeredOpts L P c) →
       keysSub (update a b) (layeredOpts L P c) := fun a b => keysSub_update
@@ -348,7 +375,7 @@ private theorem bpsv_at0 (h : resolves N L P = true) (c : Comp) (hc : c ∈ L.co
     bpsv N (flatten N L P) 0 c.stage = bpsv N L P c.stage := by
   have hs : c.stage ∈ L.comps.map (·.stage) := List.mem_map.mpr ⟨c, hc, rfl⟩
   unfold bpsv bpsCtx bps0
-  rw [gvars_at0 h, svars_at0 h c hc]
+  rw [gvars_at0 h, svars_at0 h c hc, bpsBase_zero]
   have : update ((layerOf (flatten N L P).bps 0).stage c.stage) ((layerOf (flatten N L P).bps 0).stage c.stage)
       = bpsv N L P c.stage := by
     rw [bps_flatten_zero, stage_map _ _ _ _ hs]; exact update_self _
@@ -389,8 +416,7 @@ private theorem layeredOpts_at0 (hP : P ≠ 0) (c : Comp) (hc : c ∈ L.comps) (
     apply kO
     apply keysSub_mapVals_left
     apply keysSub_update
-    · exact keysSub_trans (keysSub_update_right _ _) (keysSub_trans (keysSub_update_left _ _)
-        (keysSub_trans (keysSub_update_left _ _) (keysSub_update_left _ _)))
+    · exact keysSub_bpsBase L P c
     · exact keysSub_trans (keysSub_update_right _ _) (keysSub_update_left _ _)
   have habs : ∀ a b : Dict, keysSub a (layeredOpts L P c) → keysSub b (layeredOpts L P c) →
       keysSub (update a b) (layeredOpts L P c) := fun a b => keysSub_update
@@ -1092,7 +1118,7 @@ private theorem bpsv_closed (s : Nat) (hcl : dictClosed (bpsCtx N L P s) (bps0 L
 /-- the layered options of a NEW component on the stored description answer every lookup like its layered options
 on the package description -/
 private theorem layeredOpts_new (c : Comp) (hs : c.stage ∈ L.comps.map (·.stage))
-    (hcl : bpClosed N L P c.stage = true) (hord : bpOrderFree L P c.stage = true) (k : Name) :
+    (hcl : bpClosed N L P c.stage = true) (k : Name) :
     get? (layeredOpts (flatten N L P) P c) k = get? (layeredOpts L P c) k := by
   unfold bpClosed at hcl
   rw [Bool.and_eq_true] at hcl
@@ -1101,26 +1127,27 @@ private theorem layeredOpts_new (c : Comp) (hs : c.stage ∈ L.comps.map (·.sta
   by_cases hP : P = 0
   · subst hP
     rw [bps_flatten_zero, stage_map _ _ _ _ hs, bpg_closed hcl.1, bpsv_closed _ hcl.2]
-    simp only [get?_update, bpg0, bps0]
+    unfold bps0
+    rw [bpsBase_zero]
+    simp only [get?_update, bpg0]
     cases get? (ovrOpts c 0) k <;> cases get? c.opts k <;> cases get? ((layerOf L.bps 0).stage c.stage) k <;>
       cases get? (layerOf L.bps 0).glob k <;> rfl
   · rw [bps_flatten_ne N L P hP]
-    have hfree : ∀ v, get? ((layerOf L.bps 0).stage c.stage) k = some v → get? (layerOf L.bps P).glob k = none := by
-      intro v hv
-      unfold bpOrderFree at hord
-      have hP' : (P == 0) = false := by simpa using hP
-      rw [hP', Bool.false_or, List.all_eq_true] at hord
-      have := hord (k, v) (get?_some_mem hv)
-      exact (get?_eq_none_iff _ _).mpr (by simpa using this)
-    simp only [get?_update, bpg0, bps0, Layer.empty]
-    cases h1 : get? ((layerOf L.bps 0).stage c.stage) k with
-    | none =>
+    have hP' : (P == 0) = false := by simpa using hP
+    have hE : Layer.empty.glob = [] := rfl
+    rw [empty_stage, hE, update_nil_right, update_nil_right]
+    unfold bps0 bpsBase bpg0
+    simp only [hP', Bool.or_false]
+    cases hA : (layerOf L.bps 0).stage c.stage with
+    | nil =>
+      simp only [List.isEmpty_nil, if_true, get?_update]
       cases get? (ovrOpts c P) k <;> cases get? c.opts k <;> cases get? ((layerOf L.bps P).stage c.stage) k <;>
         cases get? (layerOf L.bps P).glob k <;> cases get? (layerOf L.bps 0).glob k <;> rfl
-    | some v =>
-      rw [hfree v h1]
-      cases get? (ovrOpts c P) k <;> cases get? c.opts k <;> cases get? ((layerOf L.bps P).stage c.stage) k <;>
-        cases get? (layerOf L.bps 0).glob k <;> rfl
+    | cons e r =>
+      simp only [List.isEmpty_cons, Bool.false_eq_true, if_false, get?_update]
+      cases get? (e :: r) k <;> cases get? (ovrOpts c P) k <;> cases get? c.opts k <;>
+        cases get? ((layerOf L.bps P).stage c.stage) k <;>
+        cases get? (layerOf L.bps P).glob k <;> cases get? (layerOf L.bps 0).glob k <;> rfl
 
 end afterReload
 
@@ -1130,15 +1157,15 @@ description knows (the stage of the `$import` entry of the loop), the component 
 stored description stores for `c` (`flatComp` on `flatten N L P`: what `instantiate_dowhile_next_iteration` of a
 restarted experiment writes and what `configurationForNode` is computed from) is the component the experiment that
 still holds the package description stores: same variables (interpolated), same override blocks, and every option
-lookup — blueprint-inherited settings (environment, resource request, resource manager options …) included — answers
-alike.  Hypotheses (decidable, evaluated by the driver on every case; what is missing from the full statement, see
-`Witness.C07`): `bpClosed` — the inherited blueprint values mention no variable defined in the scope in which the store
-interpolates them; `bpOrderFree` — no option path is set both by the default blueprint of the stage and by the global
-blueprint of the selected non-default platform (the stored description folds the four blueprint layers into two, which
-swaps the precedence of exactly these two). -/
+lookup — blueprint-inherited settings (environment, resource request, resource manager options …) included, also for
+paths that several of the four blueprint layers set (the stored stage blueprint repeats the platform-global blueprint
+above a non-empty default-stage blueprint, fix 1b655bb; the folding before the fix: `Witness.C07`) — answers alike.
+Hypothesis (decidable, evaluated by the driver on every case; what is missing from the full statement): `bpClosed` —
+the inherited blueprint values mention no variable defined in the scope in which the store interpolates them (the
+stored description keeps blueprints interpolated in the global / stage scope). -/
 theorem new_component_after_reload_partial (N : Nat) (L : Doc) (P : Name) (c : Comp)
     (h : resolves N L P = true) (hd : c.isDoc = false) (hs : c.stage ∈ L.comps.map (·.stage))
-    (hcl : bpClosed N L P c.stage = true) (hord : bpOrderFree L P c.stage = true) :
+    (hcl : bpClosed N L P c.stage = true) :
     sameComp (flatComp N (flatten N L P) P c) (flatComp N L P c) = true := by
   have hvars : (flatComp N (flatten N L P) P c).vars = (flatComp N L P c).vars := by
     rw [flatComp_vars c hd, flatComp_vars c hd]
@@ -1151,7 +1178,7 @@ theorem new_component_after_reload_partial (N : Nat) (L : Doc) (P : Name) (c : C
     have e1 : (flatComp N (flatten N L P) P c).opts = layeredOpts (flatten N L P) P c := by simp [flatComp, hd]
     have e2 : (flatComp N L P c).opts = layeredOpts L P c := by simp [flatComp, hd]
     rw [e1, e2]
-    exact layeredOpts_new c hs hcl hord k
+    exact layeredOpts_new c hs hcl k
   unfold sameComp sameLookups
   simp only [flatComp_stage, flatComp_name, flatComp_isDoc, hvars, hovr, beq_self_eq_true, Bool.true_and,
     List.all_eq_true, beq_iff_eq]
@@ -1159,7 +1186,7 @@ theorem new_component_after_reload_partial (N : Nat) (L : Doc) (P : Name) (c : C
   exact hopts e.1
 
 /-- **The restarted experiment continues the loop like the experiment that was never reloaded** (`_partial`, same
-hypotheses as `new_component_after_reload_partial`, collected in `newCompsOk`): when the experiment `reload N E` loaded
+hypothesis as `new_component_after_reload_partial`, collected in `newCompsOk`): when the experiment `reload N E` loaded
 from the instance directory and the experiment `E` that wrote it instantiate the same next iteration `cs`
 (`addIteration`), the descriptions they store list, for every new component, the same component (`sameComp`); the
 components that existed before are those of `store N E` in both (`session_disk_is_store`). -/
@@ -1172,16 +1199,26 @@ theorem iteration_after_reload_like_control_partial (N : Nat) (E : Exp) (cs : Li
   rw [List.all_eq_true] at hok
   have hc' := hok c hc
   simp only [Bool.and_eq_true, Bool.not_eq_true', List.contains_iff_mem] at hc'
-  obtain ⟨⟨⟨hd, hs⟩, hcl⟩, hord⟩ := hc'
+  obtain ⟨⟨hd, hs⟩, hcl⟩ := hc'
   have e1 : flatComp N (addIteration (reload N E) cs).doc E.plat c = flatComp N (flatten N E.doc E.plat) E.plat c :=
     flatComp_congr _ _ rfl rfl c
   have e2 : flatComp N (addIteration E cs).doc E.plat c = flatComp N E.doc E.plat c :=
     flatComp_congr _ _ rfl rfl c
   rw [e1, e2]
-  exact new_component_after_reload_partial N E.doc E.plat c h hd hs hcl hord
+  exact new_component_after_reload_partial N E.doc E.plat c h hd hs hcl
 
 /-- the hypotheses are satisfiable by a non-trivial input: `exDoc` on platform 1 has blueprints in both layers -/
 example : newCompsOk 6 exDoc 1 [⟨1, 40, false, [(30, [.ch 120])], [], []⟩] = true := by decide
+
+/-- … and by one in which the default blueprint of the stage and the global blueprint of the platform set the same
+option path (50): the shape the folding before fix 1b655bb got wrong (`Witness.C07`) is inside the theorem -/
+def exConflict : Doc :=
+  { vars := [(0, ⟨[(10, [.ch 49])], []⟩)]
+    bps := [(0, ⟨[], [(1, [(50, [.ch 50])])]⟩), (1, ⟨[(50, [.ch 52]), (51, [.ch 101])], []⟩)]
+    comps := [ { stage := 0, name := 30, isDoc := false, opts := [(23, [.ch 120])], vars := [], ovr := [] },
+               { stage := 1, name := 31, isDoc := true, opts := [], vars := [], ovr := [] } ] }
+example : resolves 4 exConflict 1 = true ∧ bpOrderFree exConflict 1 1 = false ∧
+    newCompsOk 4 exConflict 1 [⟨1, 40, false, [(23, [.ch 121])], [], []⟩] = true := by decide
 
 end St4sd.C07
 
